@@ -118,6 +118,17 @@ func (v *vclock) after(s *sim, st rig.StepResult, ctx stepCtx) {
 		}
 		v.feat["test-request-answered"] = true
 	}
+	// (5a) sending the TestRequest itself does not disturb a recovery in progress either
+	if ctx.kind == "timer" && ctx.stateBefore == "resend" && v.resendBefore.in && s.r.V.IsConnected() {
+		in, stash, _, rangeEnd := s.r.V.ResendInfo()
+		switch {
+		case !in:
+			vk.Violation(s.t, c, "C20/recovery-disturbed/by-timer-event", "a timer event in the resend state left state %s: the recovery bookkeeping (range end %d, kept %v) is gone\n%s", s.r.V.StateName(), v.resendBefore.rangeEnd, v.resendBefore.stash, s.history())
+		case rangeEnd != v.resendBefore.rangeEnd || len(stash) != len(v.resendBefore.stash):
+			vk.Violation(s.t, c, "C20/recovery-disturbed/by-timer-event", "a timer event in the resend state changed the recovery bookkeeping: range end %d -> %d, kept %v -> %v\n%s", v.resendBefore.rangeEnd, rangeEnd, v.resendBefore.stash, stash, s.history())
+		}
+		v.feat["timer-event-during-recovery"] = true
+	}
 	// (5) an inbound message in a pending state cancels the pending disconnect without disturbing a recovery
 	if ctx.kind == "in" && strings.HasPrefix(ctx.stateBefore, "pending(") && s.r.V.IsConnected() && s.r.V.IsLoggedOn() {
 		v.feat["inbound-while-pending"] = true
@@ -236,6 +247,7 @@ func c20Property(t *rapid.T) {
 		cfg.settings[config.HeartBtIntOverride] = "Y"
 		cfg.settings[config.HeartBtInt] = strconv.Itoa(cfgHB)
 	}
+	drawExtras(t, c, &cfg)
 	s := newSim(t, c, cfg)
 	defer s.close()
 	v := &vclock{deadline: map[string]time.Duration{}, feat: map[string]bool{}, asked: map[string]int{}, answered: map[string]int{}}
